@@ -419,6 +419,14 @@ class _ConfBase(Adapter):
             os.makedirs(os.path.join(self.ldir, d))
         shutil.copy(os.path.join(cd, "flowir_package.yaml"), os.path.join(self.ldir, "conf"))
 
+    reset_possible = True
+
+    def reset(self):
+        """the instance files do not exist yet (the first time they are generated)"""
+        for f in self.files:
+            if os.path.exists(self.path[f]):
+                os.remove(self.path[f])
+
     def render(self, cls, i):
         # %(name)s is FlowIR's own variable-reference syntax (an undefined variable makes the document invalid, which
         # has nothing to do with how the file is stored): the percent class has no such token here
@@ -567,8 +575,9 @@ def emit_histories(chk, gen, thorough):
 
 def tla_trace_module(traces):
     def rec(e):
-        return '[op |-> "%s", path |-> "%s", dst |-> "%s", err |-> %s, done |-> %s]' % (
-            e["op"], e["path"], e["dst"], "TRUE" if e["err"] else "FALSE", "TRUE" if e["done"] else "FALSE")
+        return '[op |-> "%s", path |-> "%s", dst |-> "%s", err |-> %s, done |-> %s, app |-> %s]' % (
+            e["op"], e["path"], e["dst"], "TRUE" if e["err"] else "FALSE", "TRUE" if e["done"] else "FALSE",
+            "TRUE" if e.get("app") else "FALSE")
     rows = []
     for t in traces:
         rows.append("  [exist |-> {%s}, enum |-> %s, ev |-> <<%s>>]" % (
@@ -621,7 +630,7 @@ def validate_traces(chk, gen, traces, label):
 # =====================================================================================================================
 def _events(rec):
     ev, _ = fsrec.normalise(rec.ops, rec.live)
-    begin = {"op": "begin", "path": "-", "dst": "-", "err": False, "done": True, "n": 0, "a": 0, "b": 0}
+    begin = {"op": "begin", "path": "-", "dst": "-", "err": False, "done": True, "app": False, "n": 0, "a": 0, "b": 0}
     return [begin] + ev
 
 
@@ -645,6 +654,7 @@ DEV_TEXT = {
     "OpenLive": "opens the live file for writing in place (it is truncated, then filled write by write)",
     "RenameUnfinished": "renames a temporary file onto the live file although its write failed or it is still open",
     "RemoveLive": "removes the live file",
+    "AppendLive": "opens the live file itself for appending, which creates it (empty) when it does not exist yet",
     "MoveLive": "renames the live file itself",
 }
 
@@ -736,7 +746,13 @@ def atomicity(chk, ad, thorough, found):
                 pred = c["disk"].get(f)
                 if got in (t["old"][f], t["new"][f]):
                     if pred in ("old", "new") and got != t[pred][f] and t["old"][f] != t["new"][f]:
-                        raise MachineryError("%s: model predicts %s for %s after op %d, the disk holds the other version" % (ad.name, pred, f, i))
+                        # the real code ran and the recorder worked, yet the recorded operations do not explain what is on the
+                        # disk (something touched the live file in a way the protocol has no action for): a violation
+                        report("%s:disk-not-explained-by-recorded-operations" % f,
+                               "%s: after operation %d of a fault-free update the specification, following the recorded operations (%s), "
+                               "has the %s version of %s on disk, the real loader finds the %s one" % (
+                                   ad.name, i, ops_text(t), pred, f, "new" if pred == "old" else "old"),
+                               {"kind": "atomic", "adapter": ad.name, "crash_after_op": i, "update": c["tid"]})
                     continue
                 if pred in ("old", "new", "missing") and not v_dev(verdicts[c["tid"]]):
                     key = "%s:crash-state-differs-from-model" % f
